@@ -483,6 +483,7 @@ class Profile:
     p_rename_all: float = None
     placements: bool = False         # C03/C04/C11/C13: #[ts(export_to = ..)] placements, cycles, parameter defaults
     ts_only: bool = False            # derive only TS (+ the inert SerdeAttrs helper)
+    wide: float = 0.0                # C13: probability of a struct referring to 5..9 distinct earlier items
 
 
 class Gen:
@@ -705,7 +706,8 @@ class Gen:
             used = set()
             it.fields = [self.named_field(it.params, d, allow_self=True, used=used) for _ in range(k)]
             pa = self.p.p_attr
-            if self.r.random() < (self.p.p_rename_all if self.p.p_rename_all is not None else pa):
+            # (ts-rs documents rename_all as not applicable to a struct without fields)
+            if it.fields and self.r.random() < (self.p.p_rename_all if self.p.p_rename_all is not None else pa):
                 it.rename_all = self.r.choice(RULES)
             if self.r.random() < pa * 0.3:
                 it.tag = f"tag{self.n()}"
@@ -759,10 +761,11 @@ class Gen:
                 n = self.r.choice([0, 2, 2, 3])
                 v.fields = [self.unnamed_field(it.params, d) for _ in range(n)]
             elif vk == "struct":
-                n = self.r.choice([0, 1, 2, 2, 3])
+                # (ts-rs rejects rename_all / rename_all_fields on a struct variant without fields)
+                n = self.r.choice([0, 1, 2, 2, 3]) if not it.rename_all_fields else self.r.choice([1, 2, 2, 3])
                 used = set()
                 v.fields = [self.named_field(it.params, d, allow_self=True, in_variant=True, used=used) for _ in range(n)]
-                if self.r.random() < (pra * 0.5 if self.p.p_rename_all is not None else pa * 0.5):
+                if v.fields and self.r.random() < (pra * 0.5 if self.p.p_rename_all is not None else pa * 0.5):
                     v.rename_all = self.r.choice(RULES)
             if self.r.random() < pa * 0.4:
                 v.rename = self.wire_rename()
@@ -850,9 +853,21 @@ class Gen:
             self.items.append(it)
         return a
 
+    def wide_item(self):
+        """named struct with many by-name references to distinct earlier items (imports with several names / files)"""
+        it = self.new_item("named")
+        cands = [i for i in self.items if not i.params]
+        self.r.shuffle(cands)
+        for c in cands[: self.r.choice([5, 6, 8, 9])]:
+            it.fields.append(Field(self.field_name(), Ty("user", item=c)))
+        self.finish(it)
+        return it
+
     def item(self):
         if self.p.placements and self.r.random() < 0.06:
             return self.cycle_pair()
+        if self.p.wide and len(self.items) > 10 and self.r.random() < self.p.wide:
+            return self.wide_item()
         if self.p.enums and self.r.random() < 0.45:
             return self.enum()
         return self.struct()
